@@ -59,7 +59,8 @@ def main():
                 lines = [l[:400] for l in out.splitlines() if l.startswith(("VIOLATION", "violation:", "HARNESS"))][:3]
                 r[cid] = {"exit": rc, "wall_s": round(time.time() - t0, 1), "lines": lines}
             head = sh(["git", "-C", "/repo", "rev-parse", "--short", "HEAD"])[1].strip()
-            results[name] = {"tier": tier, "repo_head": head, "checks": r, "caught": any(x.get("exit") == 1 for x in r.values())}
+            results[name] = {"tier": tier, "repo_head": head, "checks": r,
+                             "caught": any(x.get("exit") == 1 and any(l.startswith("VIOLATION") for l in x.get("lines", [])) for x in r.values())}
             print(f"{name}: " + ", ".join(f"{c}=exit{x.get('exit')}" for c, x in r.items()) + ("  CAUGHT" if results[name]["caught"] else "  missed"))
         finally:
             sh(["git", "-C", "/repo", "worktree", "remove", "--force", str(wt)])
